@@ -252,3 +252,152 @@ func LagTrial(p *sut.Proc, n, size int, pause time.Duration) (out *LagOutcome) {
 	}
 	return
 }
+
+// StallLeaveTrial (design G13 without gates): a peer stalls until its send
+// queue is full; a member X that owns entities then leaves the session (by
+// switching) with a pose update pending and more than 256 further requests
+// pipelined behind the switch. X's main loop blocks in the delete relays of
+// its departure, its request queue fills, a frame tick tries to push X's
+// pending update into that full queue while holding the frame lock, and when
+// the stalled peer finally reads again X needs that lock to stop its frame
+// handling. Every request must still complete, and the session's pose
+// relays must keep flowing.
+func StallLeaveTrial(p *sut.Proc, idle time.Duration) (out *StallOutcome) {
+	out = &StallOutcome{Desc: fmt.Sprintf("stall+leave: a member leaves (pending pose update, 300 pipelined requests) while a stalled peer's send queue is full; idle timeout %v", idle)}
+	t := Trial{Off: Offence{Name: "stall/leave-with-full-queue-while-peer-stalls"}, Phase: "joined"}
+	defer func() {
+		if r := recover(); r != nil {
+			if !p.Alive() {
+				out.Findings = append(out.Findings, finding(t, "process/exited", "the server process ended: %s\n%s", p.ExitInfo(), p.CrashHead(4000)))
+				return
+			}
+			out.Inconclusive = fmt.Sprint("stall+leave trial: ", r)
+		}
+	}()
+	must := func(err error) {
+		if err != nil {
+			panic(err)
+		}
+	}
+	w := scen.MustDial(p, "")
+	defer w.Close()
+	_, _, err := w.Join("")
+	must(err)
+	w3 := scen.MustDial(p, "")
+	defer w3.Close()
+	_, _, err = w3.Join(w.SID)
+	must(err)
+	x := scen.MustDial(p, "")
+	defer x.Close()
+	_, _, err = x.Join(w.SID)
+	must(err)
+	var xe uint32
+	for i := 0; i < 3; i++ {
+		xe, err = x.AddEntity(false, float32(i))
+		must(err)
+	}
+	we, err := w.AddEntity(false, 50)
+	must(err)
+	o := scen.MustDial(p, "")
+	defer o.Close()
+	_, _, err = o.Join(w.SID)
+	must(err)
+	for _, c := range []*scen.C{w, w3, x} {
+		c.Barrier()
+	}
+	o.StopReading()
+	defer o.ResumeReading()
+	// keep w and w3 alive and reading; fill the stalled peer's socket buffers and send queue
+	// (written from a goroutine without a short write deadline: a write that
+	// times out in the middle of a frame would break w's own connection)
+	body := make([]byte, 10000)
+	w.Timeout = 60 * time.Second
+	const flood = 1500
+	floodDone := make(chan error, 1)
+	go func() {
+		for i := 0; i < flood; i++ {
+			if err := w.Custom(body); err != nil {
+				floodDone <- err
+				return
+			}
+		}
+		floodDone <- nil
+	}()
+	time.Sleep(400 * time.Millisecond)
+	out.RelaysTowards = flood
+	// X: a pose update, then the switch, then 300 pings - written without reading
+	x.Timeout = 2 * time.Second
+	x.Pose(xe, 99)
+	joinID := x.NextReqID()
+	x.Send(&hagallpb.ParticipantJoinRequest{Type: d.TJoinReq, Timestamp: d.NewTag(), RequestId: joinID})
+	for i := 0; i < 300; i++ {
+		if err := x.Send(&hagallpb.Request{Type: d.TPingReq, Timestamp: d.NewTag(), RequestId: x.NextReqID()}); err != nil {
+			break
+		}
+	}
+	// several frame ticks pass while X's queue is full and its main loop is
+	// blocked relaying to the stalled peer; then the peer starts reading again
+	// (well before any idle timeout), which lets X's departure proceed
+	time.Sleep(150 * time.Millisecond)
+	o.ResumeReading()
+	out.StallerEnded = true
+	// now everything must drain: X's switch is answered ...
+	x.Timeout = 15 * time.Second
+	answered := false
+	_, err = x.WaitFor(func(e *d.Event) bool {
+		if m, ok := e.M.(*hagallpb.ParticipantJoinResponse); ok && m.RequestId == joinID {
+			answered = true
+			return true
+		}
+		return false
+	})
+	if !answered {
+		f := wedgeFinding(p, t, out.Desc+fmt.Sprintf(": after the stalled peer had resumed reading, the leaving member's session switch was never answered (%v)", err))
+		f.Trigger = "stall/leave-with-full-queue-while-peer-stalls"
+		f.Props = append(f.Props, "C09")
+		out.Findings = append(out.Findings, f)
+		return
+	}
+	// ... and the session's frame worker still relays pose updates
+	select {
+	case err := <-floodDone:
+		if err != nil {
+			panic(fmt.Errorf("the flooding member could not write: %w", err))
+		}
+	case <-time.After(40 * time.Second):
+		f := wedgeFinding(p, t, out.Desc+": the relaying member's writes never completed after the stalled peer had resumed reading")
+		f.Trigger = "stall/leave-with-full-queue-while-peer-stalls"
+		out.Findings = append(out.Findings, f)
+		return
+	}
+	w.Timeout, w3.Timeout = 15*time.Second, 15*time.Second
+	if _, err := w.Barrier(); err != nil {
+		f := wedgeFinding(p, t, fmt.Sprintf("%s: a remaining member gets no pong afterwards: %v", out.Desc, err))
+		f.Trigger = "stall/leave-with-full-queue-while-peer-stalls"
+		f.Props = append(f.Props, "C09")
+		out.Findings = append(out.Findings, f)
+		return
+	}
+	w3.Barrier()
+	tag, _ := w.Pose(we, 4242)
+	got := false
+	for k := 0; k < 400 && !got; k++ {
+		win, err := w3.Barrier()
+		if err != nil {
+			break
+		}
+		for _, e := range win {
+			if m, ok := e.M.(*hagallpb.EntityUpdatePoseBroadcast); ok && d.TagID(m.OriginTimestamp) == d.TagID(tag) {
+				got = true
+			}
+		}
+		time.Sleep(5 * time.Millisecond)
+	}
+	if !got {
+		f := wedgeFinding(p, t, out.Desc+": afterwards a pose update of a remaining member is never relayed: the session's frame worker is stuck")
+		f.Trigger = "stall/leave-with-full-queue-while-peer-stalls"
+		f.Props = append(f.Props, "C09", "C11")
+		out.Findings = append(out.Findings, f)
+	}
+	return
+}
